@@ -271,8 +271,9 @@ def symlinked_places(sb, R, rng, tier):
             os.makedirs(os.path.join(big, "sub", "deeper"))
             open(os.path.join(big, "keep.txt"), "w").write("keep")
             # the outside directory holds data of its own, partly under the names the committed directory used
-            for relp, txt in (("a.txt", "outside a"), ("b.txt", "outside b"), ("c.txt", "ccc"), ("sub/b.txt", "bbb"), ("sub/deeper/c.txt", "outside c"),
-                              ("deeper/c.txt", "ccc")):
+            # (not for checkout: there the outside directory is empty where the committed entries would land)
+            for relp, txt in (() if cmd[0] == "checkout" else (("a.txt", "outside a"), ("b.txt", "outside b"), ("c.txt", "ccc"), ("sub/b.txt", "bbb"),
+                                                               ("sub/deeper/c.txt", "outside c"), ("deeper/c.txt", "ccc"))):
                 os.makedirs(os.path.dirname(os.path.join(big, relp)), exist_ok=True)
                 open(os.path.join(big, relp), "w").write(txt)
             rel = {"artifact": "data", "subdir": "data/sub", "deep": "data/sub/deeper"}[where]
